@@ -7,6 +7,22 @@ import sys
 import threading
 
 
+def _prime_opcode_tracing():
+    """CPython 3.12 enables per-instruction events only at the first sys.settrace() call made AFTER some frame has set
+    f_trace_opcodes (an interpreter-wide flag). Without this the first opcode-level worker of a process would run unobserved
+    (measured: 1 step instead of 120)."""
+    def t(frame, event, arg):
+        frame.f_trace_opcodes = True
+        return t
+
+    def nop():
+        return None
+
+    sys.settrace(t)
+    nop()
+    sys.settrace(None)
+
+
 class Sched:
     def __init__(self):
         self.current = None
@@ -84,6 +100,7 @@ class Worker:
     def _run(self):
         self.go.acquire()
         if self.granularity != "op":
+            _prime_opcode_tracing()
             sys.settrace(self._tracer)
         try:
             for i, thunk in enumerate(self.script):
@@ -131,7 +148,8 @@ def run_two(ws, first, switches, limit=100000, bound=4096):
     # everything is concrete from here on: run the schedule outside CrossHair's tracer (the workers are untraced anyway)
     try:
         from crosshair.tracers import NoTracing, is_tracing
-        ctx = NoTracing() if is_tracing() else None
+        import os
+        ctx = NoTracing() if (is_tracing() and not os.environ.get("VERIF_SCHED_TRACED")) else None
     except Exception:
         ctx = None
     if ctx is not None:
